@@ -340,6 +340,20 @@ def rule_cond(ctx):
 
 
 def run(ctx):
+    # recorded, not repaired: the waiting list of a Condition is emptied only by signal()/unhang(); stop(), reset() and
+    # pause()+resume() take a hung routine out of its wait without removing it from that list
+    cnd = ctx.repo.cls('sc3.base.stream:Condition')
+    rt = ctx.repo.cls('sc3.base.stream:Routine')
+    ctx.rule('C11.cond', 'waiting-list discipline of Condition')
+    removers = sorted(f.qualname for ci_ in (cnd, rt) for f in ci_.methods.values()
+                      if any(isinstance(x, ast.Assign) and any(isinstance(t_, ast.Attribute) and t_.attr == '_waiting_threads' for t_ in
+                             (x.targets if not isinstance(x.targets[0], ast.Tuple) else x.targets[0].elts)) for x in walk_local(f.node))
+                      or any(isinstance(c, ast.Call) and isinstance(c.func, ast.Attribute) and c.func.attr in ('remove', 'clear', 'pop')
+                             and '_waiting_threads' in norm(c.func.value) for c in U.calls(f.node)))
+    leaves = {'Routine.stop', 'Routine.reset'}
+    ctx.ob('C11.cond', 'sc3.base.stream:Condition:stale-waiters', bool(leaves & set(removers)),
+           f'only {removers} touch Condition._waiting_threads: a routine stopped/reset (or paused and resumed) while hung stays '
+           f'registered, and a later signal() re-schedules it although it now waits for something else', cnd.node, cnd.module)
     rule_fsm(ctx)
     rule_own(ctx)
     rule_restore(ctx)
